@@ -238,6 +238,17 @@ def populateStructFields (goNames : Bool) (m : Scope) (data : Val) : Scope :=
     if goNames then (structGoNames structDepth fs).foldl (fun acc (kv : Str × Val) => Scope.set acc kv.1 kv.2) m1 else m1
   | _ => m
 
+/-- `toMapData` (vue.go): nil → {}, a map[string]any → that map, a struct → StructToMap plus PopulateStructFields on top (when non-empty), anything else → {} -/
+def toMapData (cfg : ReflectCfg) (v : Val) : Scope :=
+  match v with
+  | .nil => []
+  | .map .anyMap kvs => kvs
+  | _ =>
+    match structToMap structDepth v with
+    | .map _ [] => []
+    | .map _ kvs => populateStructFields cfg.envGoNames kvs v
+    | _ => []
+
 namespace Stack
 
 def mergeScopes (acc : Scope) : List Scope → Scope
